@@ -558,6 +558,31 @@ func (c *fnCtx) stmts(list []ast.Stmt, ind string, tail string, scope []string) 
 					r = "pure ()"
 				} else if isErrExpr(x.Results[0]) {
 					r = "Res.err"
+				} else if call, ok := x.Results[0].(*ast.CallExpr); ok {
+					// `return f(…)` where f is a translated function with an error-only result
+					fn, ok := call.Fun.(*ast.Ident)
+					ln, ok2 := "", false
+					if ok {
+						ln, ok2 = leanName[fn.Name]
+					}
+					if !ok || !ok2 {
+						fatal(x.Pos(), "unsupported error result")
+					}
+					var args []string
+					for _, a := range call.Args {
+						if id0, ok := a.(*ast.Ident); ok && c.hasSpec && id0.Name == c.specVar {
+							args = append(args, "spec")
+							continue
+						}
+						args = append(args, c.expr(a, &b, false))
+					}
+					deps[c.name] = append(deps[c.name], ln)
+					r = ln
+					if needsFuel[ln] {
+						r += " fuel"
+						c.useFuel()
+					}
+					r += " " + strings.Join(args, " ")
 				} else {
 					fatal(x.Pos(), "unsupported error result")
 				}
@@ -654,6 +679,33 @@ func (c *fnCtx) stmts(list []ast.Stmt, ind string, tail string, scope []string) 
 				out = append(out, c.stmts(elseStmts, ind+"    ", "pure "+tuple(vs), scope)...)
 			}
 			emit("  : Res " + tupleTy(len(vs)) + ")")
+		case *ast.RangeStmt:
+			// `for _, v := range []T{e1, …, en} { body }` is unrolled: v := e1; body; …; v := en; body
+			lit, ok := x.X.(*ast.CompositeLit)
+			val, ok2 := x.Value.(*ast.Ident)
+			if key, isId := x.Key.(*ast.Ident); !ok || !ok2 || x.Tok != token.DEFINE || !isId || key.Name != "_" {
+				fatal(x.Pos(), "only `for _, v := range []T{…}` is supported")
+			}
+			var unrolled []ast.Stmt
+			// Go evaluates every element of the literal before the first iteration
+			var elts []ast.Expr
+			for k, e := range lit.Elts {
+				tmp := ast.NewIdent(fmt.Sprintf("rangeElt%d_%d", c.loops, k))
+				unrolled = append(unrolled, &ast.AssignStmt{Lhs: []ast.Expr{tmp}, Tok: token.DEFINE, TokPos: x.Pos(), Rhs: []ast.Expr{e}})
+				elts = append(elts, tmp)
+			}
+			c.loops++
+			for _, e := range elts {
+				unrolled = append(unrolled, &ast.AssignStmt{Lhs: []ast.Expr{val}, Tok: token.DEFINE, TokPos: x.Pos(), Rhs: []ast.Expr{e}})
+				for _, bs := range x.Body.List {
+					if br, ok := bs.(*ast.BranchStmt); ok {
+						fatal(br.Pos(), "break/continue in an unrolled range loop")
+					}
+					unrolled = append(unrolled, bs)
+				}
+			}
+			cont := append(unrolled, list[i+1:]...)
+			return append(out, c.stmts(cont, ind, tail, scope)...)
 		case *ast.ForStmt:
 			if x.Init != nil || x.Post != nil || x.Cond == nil {
 				fatal(x.Pos(), "only `for cond {}` is supported")
